@@ -9,8 +9,9 @@ missed = [l.split("|")[1].strip() for l in rows if "**missed**" in l or "not tri
 other = [l.split("|")[1].strip() for l in rows if l.split("|")[1].strip() not in missed
          and not re.match(r"\| (C\d\d)-\d \|.*\| \*\*[^*]*\b\1\b", l)]
 intro = """### 13.5 Seeded defects (independent sub-agents; `seeded/<id>/meta.json` has the details)
-%d changes (six per property, in two rounds of three) were produced by fresh sub-agents that saw only the text of one property
-(in the second round also one-line summaries of the three changes that existed, so as not to repeat them) and a scratch
+%d changes (six per property, in two rounds of three, and a third round of eight for C09, C12 and C15 - ids 7..9) were
+produced by fresh sub-agents that saw only the text of one property (after the first round also one-line summaries of the
+changes that existed, so as not to repeat them) and a scratch
 worktree of `/repo`; each was confirmed here (`harness/confirm_seed.sh`: builds, unedited `make check` passes, its demonstration
 passes on the unchanged build and fails on the changed one) before it was kept. `harness/try_seed.sh` runs a registered check
 against a scratch worktree with the change applied (REPO / VERIF_BUILD / VERIF_OUT redirected, a frozen copy of `spec/`);
@@ -31,7 +32,13 @@ grammar of interrupted syncs, short reads, witness replay, the filters of fix (`
 format-3 arrays in the kill sweeps, directed histories for the frame of fix and for link kinds. Second round: the scan by inode
 numbers (trusted UUIDs) with finding F13, `--force-nocopy` in check/fix, scanner-thread skew and the other C13 scenarios, faults
 in scrubs over pending changes and during a hash migration, cross-override refusals and the lock with a lost content copy, the
-golden arrays of section 13.2, and the directed histories listed there. Two changes of the first round (C04-2, C06-2) and one
+golden arrays of section 13.2, and the directed histories listed there. Third round (run in the last hours, five of eight missed
+at first): the books kept by the `rehash` command (C15-7), nothing written through a symbolic link standing where a recorded
+file was (C12-7) and the last name of a hard-linked file under a selection (C12-8) became checks; C12-9 (a content file inside a
+data disk taken for data) is reported by the check of C18, whose statement names it ("the tool's own content ... files
+always"); C09-7 turns a clean rejection of one flipped bit (exit 1) into an assertion failure (SIGABRT): the content file is
+still rejected with a failing status and nothing is changed, and since `os_abort()` is the tool's own way of rejecting most
+damaged content the check of C09 accepts that exit - read here as not violating the statement, and listed as missed. Two changes of the first round (C04-2, C06-2) and one
 of C01 (C01-2) had been caught by a single random history each; when the option noise of the second round shifted the random
 histories they were missed, and each got a directed history of its own (several rotten blocks in one file, a deleted block
 next to a rotten one in a sync, files with stamps one second apart exchanging names) - a reminder that a catch by one random
